@@ -6,13 +6,15 @@ SPEC = {
         'fee bounds use the node\'s incremental relay feerate option and the BIP141 vsize of the final signed replacement (own computation)',
         'must-refuse set: confirmed, already bumped, and (bumpfee RPC contract) originals with a mempool descendant; refusals are compared on a wallet digest (tx states, replaced-by/replaces links, locked coins, key pool size, address book size)',
         'caller-supplied outputs keep every payment of the original (possibly with a changed amount) and may add one: dropping payments makes the replacement smaller and, without an explicit feerate, lets it pay LESS than the original (mempool refuses it) on the unchanged tree -- reproduced by target c56_bump_literal, corpus/C56/SENSITIVITY.md',
+        'bumps that must add inputs: a "drain + exact payment" pair leaves a changeless original while the wallet holds only unconfirmed own change (and optionally one confirmed spare); the wallet must not pull in the unconfirmed coin (feebumper sets m_min_depth = 1). This node version no longer has BIP125 rule 2; a replacement hanging off the 1 sat/vB parent is refused by the feerate-diagram check instead, which is what the unchanged oracle observes',
         'full-RBF mempool: "not signalling where required" has no instance in this version',
         'validation callbacks on the scheduler thread, drained before every wallet call',
     ],
     'stages': [
-        gen('vh_c56', 'c56_bump', 240, 4400, min_cases_quick=48, max_seconds_quick=900, max_seconds_thorough=7200,
+        gen('vh_c56', 'c56_bump', 400, 8000, min_cases_quick=48, max_seconds_quick=900, max_seconds_thorough=7200,
             floors={'payment': 0.8, 'bump-default': 0.15, 'bump-explicit-rate': 0.1, 'bump-new-outputs': 0.08, 'bump-reduce-change': 0.1, 'refused-confirmed': 0.05,
-                    'refused-already-bumped': 0.05, 'refused-has-descendants': 0.03, 'mixed-payment': 0.1},
+                    'refused-already-bumped': 0.05, 'refused-has-descendants': 0.03, 'mixed-payment': 0.1,
+                    'bump-must-add-inputs': 0.2, 'bump-added-inputs': 0.06, 'bump-added-unconfirmed-input-available': 0.2, 'bump-only-unconfirmed-spare': 0.1},
             rule='wallet payments + bumps; non-trivial = >=1 accepted replacement and >=1 refusal of a confirmed / already bumped / has-descendants original'),
         gen('vh_c56', 'c56_bump_literal', 0, 0, tiers=(), rule='replay-only: known finding (bump with caller-supplied outputs that drop a payment pays less than the original)'),
     ],
